@@ -227,7 +227,12 @@ class Server:
                 f.write("\n")  # I like my JSON with a trailing newline
             while True:
                 with server:
-                    data = receive(server)
+                    try:
+                        data = receive(server)
+                    except OSError:
+                        # The client went away before sending a complete request, or what it
+                        # sent is not a request at all. Drop this connection and keep serving.
+                        continue
                     sys.stdout = WriteToConn(server, "stdout", sys.stdout.isatty())
                     sys.stderr = WriteToConn(server, "stderr", sys.stderr.isatty())
                     resp: dict[str, Any] = {}
